@@ -1,6 +1,7 @@
 package main
 
 import (
+	"time"
 	"bytes"
 	"fmt"
 	"os"
@@ -219,6 +220,94 @@ func c18LongPaths(dotu bool, lo, hi int) Scenario {
 			}
 		}
 		return res
+	}}
+}
+
+// c18BusyRoot: one connection walks '..' at the root while another one changes the
+// root directory (creates, removes a file in it), with the two requests interleaved
+// between any two looks the server takes at the file system (host calls are scheduling
+// points). '..' at the root stays the root.
+func c18BusyRoot(change string, dotu bool, P int) Scenario {
+	var env *c18Env
+	var leak string
+	name := fmt.Sprintf("'..' at the root while another connection does a %s in it (schedules between host calls) dotu=%v", change, dotu)
+	body := func() {
+		vs.EnableHostPoints()
+		leak = ""
+		os.Remove(filepath.Join(env.root, "fresh"))
+		os.WriteFile(filepath.Join(env.root, "goes"), []byte("x"), 0o644)
+		// the root was last changed long ago: whatever changes it now is visible in its times
+		os.Chtimes(env.root, time.Unix(1000000000, 0), time.Unix(1000000000, 0))
+		h := newUfsH(env.root, 8216, dotu)
+		c1, c2 := h.Connect(), h.Connect()
+		ver := "9P2000"
+		un := ""
+		if dotu {
+			ver = "9P2000.u"
+		} else {
+			un = go9p.OsUsers.Uid2User(os.Geteuid()).Name()
+		}
+		note := func(m, r *wire.Msg) {
+			if l := env.leak(r); l != "" && leak == "" {
+				leak = fmt.Sprintf("%s -> %s", m, l)
+			}
+		}
+		for _, c := range []*Cli{c1, c2} {
+			c.Version(8216, ver)
+			c.Rpc(tattach(1, 0, wire.NOFID, un, uint32(os.Geteuid()), dotu))
+		}
+		c2.Rpc(twalk(2, 0, 3))
+		c2.Rpc(twalk(2, 0, 4, "goes"))
+		var m2 *wire.Msg
+		switch change {
+		case "create":
+			m2 = &wire.Msg{Type: wire.Tcreate, Tag: 5, Fid: 3, Name: "fresh", Perm: 0644, Mode: 1}
+		case "remove":
+			m2 = &wire.Msg{Type: wire.Tremove, Tag: 5, Fid: 4}
+		}
+		m1 := twalk(6, 0, 1, "..", "..", "canary")
+		m1b := twalk(7, 0, 2, "..")
+		vs.Window(true)
+		if P > 1 {
+			c1.Send(dotu, m1b)
+		} else {
+			c1.Send(dotu, m1, m1b)
+		}
+		c2.Send(dotu, m2)
+		vs.Idle()
+		vs.Window(false)
+		for _, f := range c1.Collect() {
+			if f.Msg != nil && f.Msg.Tag == 6 {
+				note(m1, f.Msg)
+			}
+			if f.Msg != nil && f.Msg.Tag == 7 {
+				note(m1b, f.Msg)
+			}
+		}
+		for _, fid := range []uint32{1, 2} {
+			st := &wire.Msg{Type: wire.Tstat, Tag: 8, Fid: fid}
+			note(st, c1.Rpc(st))
+			w := twalk(9, fid, 10+fid, "canary")
+			note(w, c1.Rpc(w))
+		}
+	}
+	check := func(x *vs.Exec) *Viol {
+		for _, p := range x.Panics {
+			return &Viol{Sig: "C18/panic/" + p.Frame, Msg: "panic: " + p.Value}
+		}
+		if len(x.Fails) > 0 {
+			return &Viol{Sig: "C18/harness/" + sigWords(x.Fails[0]), Msg: x.Fails[0]}
+		}
+		if leak != "" {
+			return &Viol{Sig: "C18/leak/busy-root", Msg: fmt.Sprintf("while another connection did a %s in the root directory: %s", change, leak)}
+		}
+		return nil
+	}
+	return Scenario{Name: name, Run: func(rc *RunCtx) *Result {
+		env = c18Setup()
+		env.outsideState()
+		defer func() { os.RemoveAll(env.base) }()
+		return runVs(rc, &VsSpec{Name: name, Body: body, Check: check, P: P})
 	}}
 }
 
@@ -615,6 +704,11 @@ func c18Scenarios(tier string) []Scenario {
 	out = append(out, c18PipelinedWalk(false, pw), c18PipelinedWalk(true, pw))
 	// PATH_MAX is 4096 on the host: every spelled length from well below to beyond it
 	out = append(out, c18LongPaths(false, 4060, 4082), c18LongPaths(true, 4083, 4104))
+	bp := 1
+	if tier == "thorough" {
+		bp = 2
+	}
+	out = append(out, c18BusyRoot("create", false, bp), c18BusyRoot("remove", true, bp))
 	if tier == "thorough" {
 		out = append(out, c18LongPaths(true, 4000, 4059), c18LongPaths(false, 4083, 4140))
 	}
